@@ -141,17 +141,27 @@ func (ft *FileTransfer) String() string {
 	return fmt.Sprintf("%-21s %.3s%%  %6s\n", trunc, ft.percentComplete(), ft.formattedTransferSize())
 }
 
+// size decodes TransferSize.  For uploads the bytes are the client's transfer size field as sent, which need not be
+// four bytes long (Hotline integers may be sent in two bytes, and a hostile client may send anything).
+func (ft *FileTransfer) size() uint32 {
+	var n uint32
+	for _, b := range ft.TransferSize {
+		n = n<<8 | uint32(b)
+	}
+	return n
+}
+
 func (ft *FileTransfer) percentComplete() string {
 	ft.bytesSentCounter.mux.Lock()
 	defer ft.bytesSentCounter.mux.Unlock()
 	return fmt.Sprintf(
 		"%v",
-		math.RoundToEven(float64(ft.bytesSentCounter.Total)/float64(binary.BigEndian.Uint32(ft.TransferSize))*100),
+		math.RoundToEven(float64(ft.bytesSentCounter.Total)/float64(ft.size())*100),
 	)
 }
 
 func (ft *FileTransfer) formattedTransferSize() string {
-	sizeInKB := float32(binary.BigEndian.Uint32(ft.TransferSize)) / 1024
+	sizeInKB := float32(ft.size()) / 1024
 	if sizeInKB >= 1024 {
 		return fmt.Sprintf("%.1fM", sizeInKB/1024)
 	} else {
